@@ -155,7 +155,7 @@ Print Assumptions C04_debt_all_histories.
 (** ** Total principal moves with the debt of the cdps (exact, per operation) *)
 (* The clause "total principal = sum of cdp debt up to interest rounding" is a statement about products of
    rounded interest factors; the model proves the exact per-operation bookkeeping (below: create, draw,
-   seizure, interest accumulation; repay is symmetric) and the Go monitor [total-principal-drift] checks the
+   seizure, repay, interest accumulation) and the Go monitor [total-principal-drift] checks the
    bound on every step of every history against the implementation.  A closed-form bound over all
    histories is not proved. *)
 Theorem C04_total_principal_create :
@@ -178,6 +178,25 @@ Theorem C04_total_principal_seize :
   (forall t', t' <> c_type c -> tprin s' t' = tprin s t').
 Proof. exact seize_tprin. Qed.
 Print Assumptions C04_total_principal_seize.
+
+Theorem C04_total_principal_repay :
+  forall e s o t pd x s' u, repay e s o t pd x = Ok s' u ->
+  exists cp c0 s1 c, find_cdp e s o t = Some c0 /\ get_cp e t = Some cp /\ sync_interest e s cp c0 = Ok s1 c /\
+    let paid := fst (calc_payment (cdp_debt c) (c_fees c) x) + snd (calc_payment (cdp_debt c) (c_fees c) x) in
+    tprin s' t = Z.max (tprin s t - paid) 0 /\ (forall t', t' <> t -> tprin s' t' = tprin s t') /\
+    (cdps s' (c_type c) (c_id c) = None \/
+     exists c', cdps s' (c_type c) (c_id c) = Some c' /\ cdp_debt c' = cdp_debt c - paid).
+Proof. exact repay_tprin. Qed.
+Print Assumptions C04_total_principal_repay.
+
+(* AccumulateInterest: the total principal and the debt coin of the cdp module grow by the same amount *)
+Theorem C04_total_principal_accumulate :
+  forall e s t cp,
+  let s' := accumulate_interest e s t cp in
+  let acc := tprin s' t - tprin s t in
+  0 <= acc -> bal s' (CDPM e) (d_debt e) = bal s (CDPM e) (d_debt e) + acc \/ acc = 0.
+Proof. exact accumulate_tprin. Qed.
+Print Assumptions C04_total_principal_accumulate.
 
 (** ** Closing returns to every depositor exactly what they deposited *)
 (* ReturnCollateral: each depositor's balance of the collateral denom grows by exactly the recorded
